@@ -1,5 +1,8 @@
+#![recursion_limit = "512"]
 mod c11;
+mod igcp;
 mod red;
+mod thermo;
 mod util;
 mod zoo;
 
@@ -7,6 +10,8 @@ fn main() {
     let args = util::parse_args();
     match args.cmd.as_str() {
         "c11" => c11::run(&args),
+        "thermo" => thermo::run(&args),
+        "igcp" => igcp::run(&args),
         "zoo" => {
             for m in zoo::zoo(true) {
                 println!("{} n={} family={}", m.name, m.n, m.family);
